@@ -5,6 +5,7 @@ import (
 	"fmt"
 	"runtime/debug"
 	"sort"
+	"sync/atomic"
 	"time"
 )
 
@@ -161,7 +162,7 @@ func (w *workerState) afterLeaf(c *Ctx) {
 	}
 	w.leaves++
 	if w.progress != nil {
-		*w.progress = w.leaves
+		atomic.StoreInt64(w.progress, w.leaves)
 	}
 }
 
